@@ -41,6 +41,7 @@ type Prog struct {
 	specFiles     []string
 	specFunOrder  []string
 	madeIfaceSet map[string]bool
+	unbound      []unboundSpec
 	implCache     map[string][]implSpec
 }
 
@@ -152,12 +153,17 @@ func loadProg(repo string, assumedDir string) (*Prog, error) {
 			}
 		}
 	}
+	// a contract whose function no longer exists (renamed, inlined, restructured closures): not fatal - the contract
+	// is dropped and reported as a binding violation of every property it carries (check.go)
 	for key, specs := range P.specs {
 		for _, s := range specs {
 			if !s.Assumed && P.fns[key] == nil {
-				return nil, fmt.Errorf("%s:%d: contract for unknown function %s", s.File, s.Line, key)
+				P.unbound = append(P.unbound, unboundSpec{Key: key, Props: s.Props, Msg: fmt.Sprintf("%s:%d: contract for unknown function %s", s.File, s.Line, key)})
 			}
 		}
+	}
+	for _, u := range P.unbound {
+		delete(P.specs, u.Key)
 	}
 	P.mergeVariants()
 	if err := P.resolveRefines(); err != nil {
@@ -266,6 +272,12 @@ func (P *Prog) mergeVariants() {
 }
 
 // resolveRefines: a function that refines a func-type contract carries that contract's clauses
+type unboundSpec struct {
+	Key   string
+	Props []string
+	Msg   string
+}
+
 func (P *Prog) resolveRefines() error {
 	for key, specs := range P.specs {
 		for _, s := range specs {
